@@ -115,7 +115,18 @@ def s1(ctx, rep):
             continue
         default = [c for c in f['calls'] if c.get('f') == f"syn::visit::{f['name']}"]
         if f['name'] == 'visit_file':
-            gtxt = [vt.show(fr['c']).replace(' ', '') for fr in default[0]['guard'] if fr.get('k') == 'if' and not fr.get('neg')] if len(default) == 1 else None
+            # the conditions under which the default visit is reached, each with its effective polarity: `if accepted { visit }`
+            # and `if !accepted { return } visit` are the same guard
+            gtxt = None
+            if len(default) == 1:
+                gtxt = []
+                for fr in default[0]['guard']:
+                    if fr.get('k') != 'if':
+                        continue
+                    c_, pos_ = vt.unvar(fr.get('c')), not fr.get('neg')
+                    while isinstance(c_, dict) and c_.get('k') == 'op' and c_.get('op') == '!' and len(c_.get('args', [])) == 1:
+                        c_, pos_ = vt.unvar(c_['args'][0]), not pos_
+                    gtxt.append(('' if pos_ else '!') + vt.show(c_).replace(' ', ''))
             p1 = f['params'][1]['name']
             ok = gtxt in ([f"self.target_os_accepted({p1}.attrs)"], [f"accept_target_os({p1}.attrs,self.parse_context.target_os)"])
             rep.check(ok, 'S1', 'visit_file:descends', 'descends under the file-level target test only', 'visit_file does not descend into the file exactly when its inner cfg attributes accept the target', site)
@@ -152,7 +163,14 @@ def s2(ctx, rep):
         if a['variants'] == ['Ok']:
             rep.check(re.search(r'parsed_data\s*\.\s*push\s*\(\s*\w+\s*\)', a['body']) is not None and a['bindings'] and a['bindings'][0]['uses'] > 0, 'S2', 'collect_result:Ok', 'parsed item pushed', f'{cname} drops successfully parsed items', site)
         if a['variants'] == ['Err']:
-            rep.check(re.search(r'errors\s*\.\s*push', a['body']) is not None and a['bindings'] and a['bindings'][0]['uses'] > 0, 'S2', 'collect_result:Err', 'error recorded', f'{cname} discards parse errors: an annotated item that cannot be generated is silently omitted instead of reported', site)
+            recorded = re.search(r'errors\s*\.\s*push', a['body']) is not None
+            if not recorded:
+                # the push may sit in a helper the arm hands the error to (`Err(e) => self.record_error(e)`): inlined view
+                fxv = ctx.x(f)
+                recorded = any(c.get('f') == 'push' and c.get('recv') is not None and vt.show(vt.strip(c['recv'])).replace(' ', '').endswith('parsed_data.errors')
+                               and any(fr.get('k') == 'arm' and fr.get('variants') == ['Err'] and fr.get('line') == a.get('line') for fr in c.get('guard', []))
+                               and any(x.get('k') == 'payload' and str(x.get('variant', '')).split('::')[-1] == 'Err' for a_ in c.get('args', []) for x in vt.walk(a_)) for c in fxv['calls'])
+            rep.check(recorded and a['bindings'] and a['bindings'][0]['uses'] > 0, 'S2', 'collect_result:Err', 'error recorded', f'{cname} discards parse errors: an annotated item that cannot be generated is silently omitted instead of reported', site)
     p = ctx.fnx('ParsedData::push', file='parser.rs')
     ri = ctx.item('enum', 'RustItem')
     item_param = next((q['name'] for q in p['params'] if q.get('ty') == 'RustItem'), None)
